@@ -1398,13 +1398,14 @@ class Engine(CondMixin, Interp):
         walk(body, [])
         pos = lambda n: (getattr(n, "lineno", 0), getattr(n, "col_offset", 0))
         endpos = lambda n: (getattr(n, "end_lineno", 0) or 0, getattr(n, "end_col_offset", 0) or 0)
-        all_loads = [(pos(s), _own_loads(s)) for s, _ in items]
-        for s, loops in items:
-            e = endpos(s)
-            live = set()
-            for p_, l_ in all_loads:
-                if p_ >= e:
-                    live |= l_
+        # "later" = later in the walk (source) order; statements nested in s are included too, which only keeps more
+        # names alive.  (Positions are not used: statements synthesised by the normalising passes share positions.)
+        own = [_own_loads(s) for s, _ in items]
+        suffix: list[set[str]] = [set() for _ in items] + [set()]
+        for i in range(len(items) - 1, -1, -1):
+            suffix[i] = suffix[i + 1] | own[i]
+        for i, (s, loops) in enumerate(items):
+            live = set(suffix[i + 1])
             for L in loops:
                 live |= loads_of(L)
             table[id(s)] = live
@@ -2175,6 +2176,17 @@ def _engine_call_effect(self: Engine, st: PState, c: ast.Call) -> None:
                 a = self.args_terms(c, d)
                 self.emit_event(st, "append", name, {"arg": a[-1] if a else None, "list": dn}, c)
                 return
+        # a local list that is built up element by element: its term is the tuple of what was appended so far
+        if name in ("append", "extend") and isinstance(fn.value, ast.Name) and isinstance(d.vars.get(fn.value.id), str) and len(c.args) == 1:
+            cur = d.vars[fn.value.id]
+            if cur in ("()", "[]") or cur.startswith("[]@L") or is_tuple_term(cur):
+                have = [] if not is_tuple_term(cur) else split_tuple(cur)
+                a_t = self.term(c.args[0], d)
+                add = [a_t] if name == "append" else (split_tuple(a_t) if is_tuple_term(a_t) else ([] if a_t in ("()", "[]") else None))
+                if add is not None:
+                    allx = have + add
+                    d.vars[fn.value.id] = "(" + ", ".join(allx) + ("," if len(allx) == 1 else "") + ")" if allx else "()"
+                    return
         if name == "remove" and isinstance(fn.value, ast.Name) and fn.value.id in d.vars:
             cur = d.vars[fn.value.id]
             p = parse_call_term(cur)
